@@ -13,6 +13,8 @@ Schedules (all steered by events, never by sleeps or deadlines):
   B  reader starts first and is paused inside one of its own callbacks (mapper / predicate);
      a writer then tries to commit; it continues when the writer is observed blocked or done.
   C  the owner thread nests `with tree:` and runs every snapshot operation inside (re-entrancy).
+  F  a snapshot operation is ended by an exception raised in the user's callback (mapper / predicate) at its k-th call;
+     afterwards the lock must be free (acquire/release counts of the ended thread, follow-up operations unblocked).
   D  a (nested) critical section is left through an exception (user Exception, BaseException, refused
      library call); once that thread has ended the event log must show the lock released as often as
      acquired, and readers then run every snapshot operation without finding the lock taken.
@@ -40,7 +42,7 @@ from ..core import rng_for, short_tb
 
 PROP = "C18"
 LEVEL = "exploration"
-RULE = ("case = one schedule point: (schedule A|B|C|D, snapshot operation, writer style in {relabel, rebuild, mixed}, writer "
+RULE = ("case = one schedule point: (schedule A|B|C|D|F, snapshot operation, writer style in {relabel, rebuild, mixed}, writer "
         "phase p of m, nesting depth, number of readers; D: kind of exception that ends the critical section) or one stress run (seed, writers, readers, iterations); every "
         "(operation x style x phase) cell is enumerated; non-trivial = schedule with a writer phase strictly inside the "
         "critical section, schedule B or D, or a stress run with >= 1 observed blocking; distinct by case description")
@@ -708,6 +710,85 @@ def schedule_D(case, res):
         res.violation(case, "; ".join(dict.fromkeys(bad))[:2500])
 
 
+class _RaisingHook:
+    """Callback hook that fails at its k-th invocation (a user callback with a bug, a data object that cannot be mapped)."""
+
+    def __init__(self, k):
+        self.k, self.n = k, 0
+
+    def hit(self):
+        self.n += 1
+        if self.n == self.k:
+            raise _Boom("user callback fails inside a snapshot operation")
+
+
+def schedule_F(case, res):
+    """A snapshot operation is ended by an exception from the user's callback (mapper / predicate).  Once that thread has ended
+    the event log must show the tree lock released as often as acquired; a writer and all snapshot operations then run
+    without finding the lock taken."""
+    op, k = case["op"], case["k"]
+    log = Log()
+    t = build_tree(0)
+    t._lock = LockProxy(t._lock, log)
+    tmpdir = tempfile.mkdtemp(prefix="vmon-c18-")
+    bad, seen = [], []
+
+    def reader():
+        try:
+            if case.get("nested"):
+                with t:
+                    run_op(op, t, tmpdir, hook=_RaisingHook(k))
+            else:
+                run_op(op, t, tmpdir, hook=_RaisingHook(k))
+            seen.append("returned")
+        except BaseException as e:  # noqa: BLE001
+            seen.append(type(e).__name__)
+
+    th = threading.Thread(target=reader, daemon=True)
+    th.start()
+    th.join(WATCHDOG * 2)
+    if th.is_alive():
+        res.inconc("schedule F: reader did not end")
+        shutil.rmtree(tmpdir, ignore_errors=True)
+        return
+    res.count("cell:F")
+    res.count(f"callback_fault:{op}:{seen[0] if seen else '?'}")
+    rid = th.ident
+    acq = sum(1 for e in log.events if e[1] == "acquired" and e[2] == rid)
+    rel = sum(1 for e in log.events if e[1] == "released" and e[2] == rid)
+    if acq < 1:
+        res.inconc("schedule F: the operation never acquired the tree lock")
+    elif rel != acq:
+        bad.append(f"{op}: ended by an exception from the user's callback (call #{k}, outcome {seen}); the tree lock was acquired {acq}x but "
+                   f"released {rel}x - it stays held by a thread that has ended")
+    else:
+        def after():
+            try:
+                with t:
+                    t.clear()
+                    fill(t, 2)
+                for op2 in OPS:
+                    r = run_op(op2, t, tmpdir)
+                    msg = check_snapshot(labels_of(op2, r), {2})
+                    res.count("snapshots_checked")
+                    if msg:
+                        bad.append(f"{op2} after {op} was ended by a callback exception: {msg}")
+            except Exception:
+                bad.append("operations after a failed snapshot operation raised: " + short_tb(5))
+
+        n0 = len(log.events)
+        at = threading.Thread(target=after, daemon=True)
+        at.start()
+        at.join(WATCHDOG * 2)
+        if at.is_alive():
+            res.inconc("schedule F: follow-up thread did not end")
+        elif any(e[1] == "blocked" for e in log.events[n0:]):
+            bad.append(f"after {op} failed in a callback another thread found the lock taken although nobody is inside a critical section")
+    shutil.rmtree(tmpdir, ignore_errors=True)
+    if bad:
+        res.violation(case, "; ".join(dict.fromkeys(bad))[:2500])
+
+
 # ------------------------------------------------------------------------------------
 # stress
 # ------------------------------------------------------------------------------------
@@ -852,6 +933,9 @@ def _run_case(case, res):
     if k == "D":
         res.case(case, nontrivial=True)
         return schedule_D(case, res)
+    if k == "F":
+        res.case(case, nontrivial=True)
+        return schedule_F(case, res)
     return stress(case, res)
 
 
@@ -882,6 +966,10 @@ def all_points(tier):
                 pts.append({"kind": "B", "op": op, "style": style, "k": k})
     for nest in (1, 2, 3):
         pts.append({"kind": "C", "nest": nest})
+    for op in OPS_WITH_CALLBACK:
+        for k in ((1, 3, 8) if tier == "quick" else (1, 2, 3, 5, 8, 12)):
+            for nested in (False, True):
+                pts.append({"kind": "F", "op": op, "k": k, "nested": nested})
     for nest in (1, 2, 3):
         for exc in ("user", "base", "library"):
             for style in STYLES:
@@ -890,7 +978,7 @@ def all_points(tier):
     # the same schedule points on a TypedTree whose kinds change from version to version (rebuild/mixed styles)
     typed_pts = []
     for pt in pts:
-        if pt["kind"] in ("C", "D") or (pt.get("style") in ("rebuild", "mixed") and (tier != "quick" or pt.get("phase", 1) in (1, 2) or pt["kind"] == "B")):
+        if pt["kind"] in ("C", "D", "F") or (pt.get("style") in ("rebuild", "mixed") and (tier != "quick" or pt.get("phase", 1) in (1, 2) or pt["kind"] == "B")):
             typed_pts.append({**pt, "typed": True})
     return pts + typed_pts
 
